@@ -407,6 +407,10 @@ def r1_links(cx):
     pa = Prov(m, "alias")
     for fname in ("build_step", "build_act", "dyn_build_act"):
         f = m.one(r"^acts::scheduler::tree::build::%s$" % fname)
+        if "prev" not in f.names.values():
+            # the builder does not link (no sibling cursor): linking is then done by its caller, see C16.R1
+            cx.note("C04.R1: `%s` has no `prev` cursor; its caller links the nodes (C16.R1 build_acts:chain-complete)" % fname)
+            continue
         sn = [c for c in f.calls() if c.q.endswith("Node::set_next")]
         sp = [c for c in f.calls() if re.search(r"Node::set_parent(_in)?$", c.q)]
         mk = [c for c in f.calls() if c.q.endswith("NodeTree::make") or c.q.endswith("Node::append_node")]
